@@ -12,15 +12,29 @@ func init() {
 }
 
 type oasOp struct {
-	Method      string   `json:"method"`
-	Summary     string   `json:"summary"`
-	Description string   `json:"description"`
-	OpID        string   `json:"opid"`
-	Tags        []string `json:"tags"`
-	Query       []string `json:"query"`
-	Headers     []string `json:"headers"`
-	Body        string   `json:"body"`
-	Codes       []string `json:"codes"`
+	Method      string    `json:"method"`
+	Summary     string    `json:"summary"`
+	Description string    `json:"description"`
+	OpID        string    `json:"opid"`
+	Tags        []string  `json:"tags"`
+	Query       []string  `json:"query"`
+	Headers     []string  `json:"headers"`
+	Body        string    `json:"body"`
+	Codes       []string  `json:"codes"`
+	ReqMT       []string  `json:"reqmt"`
+	Resp        []oasResp `json:"resp"`
+}
+
+type oasResp struct {
+	Code    string   `json:"code"`
+	Content []string `json:"content"`
+	Headers []string `json:"headers"`
+}
+
+type oasInfo struct {
+	Title   string `json:"title"`
+	Version string `json:"version"`
+	HasDesc bool   `json:"hasdesc"`
 }
 
 type oasItem struct {
@@ -34,6 +48,16 @@ type oasSkel struct {
 	Servers    []string  `json:"servers"`
 	Paths      []oasItem `json:"paths"`
 	Components []string  `json:"components"`
+	Fails      bool      `json:"fails"`
+	Info       oasInfo   `json:"info"`
+}
+
+func keysOf(o oobj) []string {
+	out := []string{}
+	for _, kv := range o {
+		out = append(out, kv.K)
+	}
+	return sortedStrs(out)
 }
 
 func sortedStrs(a []string) []string {
@@ -53,6 +77,10 @@ func projectOAS(js []byte) (*oasSkel, error) {
 		return nil, fmt.Errorf("the document is not an object")
 	}
 	sk := &oasSkel{OpenAPI: doc.str("openapi"), Servers: []string{}, Components: []string{}}
+	if info := doc.obj("info"); info != nil {
+		_, hasDesc := info.get("description")
+		sk.Info = oasInfo{Title: info.str("title"), Version: info.str("version"), HasDesc: hasDesc}
+	}
 	for _, s := range doc.arr("servers") {
 		so, _ := s.(oobj)
 		sk.Servers = append(sk.Servers, so.str("url"))
@@ -82,12 +110,15 @@ func projectOAS(js []byte) (*oasSkel, error) {
 			}
 			if rb := op.obj("requestBody"); rb != nil {
 				o.Body = "optional"
+				o.ReqMT = keysOf(rb.obj("content"))
 				if req, _ := rb.get("required"); req == true {
 					o.Body = "required"
 				}
 			}
 			for _, rk := range op.obj("responses") {
 				o.Codes = append(o.Codes, rk.K)
+				ro, _ := rk.V.(oobj)
+				o.Resp = append(o.Resp, oasResp{Code: rk.K, Content: keysOf(ro.obj("content")), Headers: keysOf(ro.obj("headers"))})
 			}
 			o.Codes = sortedStrs(o.Codes)
 			it.Ops = append(it.Ops, o)
@@ -145,7 +176,13 @@ func c17OAS(args []string) *Result {
 		}
 		if eo != "" {
 			res.count("export-error")
-			return nil // an error value is allowed
+			if !cs.OAS.Fails {
+				res.count("export-error-not-predicted") // an error value is allowed by C17; only the refused merge is modelled
+			}
+			return nil
+		}
+		if cs.OAS.Fails {
+			res.drift(src.name + ": the specification says the export refuses to merge a response of the notation empty, the export succeeds")
 		}
 		got, err := projectOAS(oa)
 		if err != nil {
@@ -201,6 +238,17 @@ func c17OAS(args []string) *Result {
 				}
 				beyond("requestBody", wo.Body, g.Body)
 				beyond("response keys", sortedStrs(wo.Codes), g.Codes)
+				beyond("request media types", sortedStrs(wo.ReqMT), sortedStrs(g.ReqMT))
+				gr := map[string]oasResp{}
+				for _, r := range g.Resp {
+					gr[r.Code] = r
+				}
+				for _, wr := range wo.Resp {
+					beyond("media types of response "+wr.Code, sortedStrs(wr.Content), gr[wr.Code].Content)
+					if !hasUnknown(wr.Headers) {
+						beyond("headers of response "+wr.Code, sortedStrs(wr.Headers), gr[wr.Code].Headers)
+					}
+				}
 			}
 			if len(gi.Ops) != len(wi.Ops) {
 				res.drift(fmt.Sprintf("%s %s: %d operations exported, the specification has %d", src.name, wi.Path, len(gi.Ops), len(wi.Ops)))
@@ -218,6 +266,9 @@ func c17OAS(args []string) *Result {
 				res.mismatch("c17:type-not-component", fmt.Sprintf("%s: user type %s is not a component", src.name, c), replay)
 				return nil
 			}
+		}
+		if want.Info != got.Info {
+			res.drift(fmt.Sprintf("%s: info: specification %+v, export %+v", src.name, want.Info, got.Info))
 		}
 		if fmt.Sprint(want.Servers) != fmt.Sprint(got.Servers) {
 			res.drift(fmt.Sprintf("%s: servers: specification %v, export %v", src.name, want.Servers, got.Servers))
